@@ -1219,11 +1219,61 @@ def _self_field(e: ast.expr) -> ast.expr | None:
     return None
 
 
+PURE_PREDICATES = {'has_bias', 'get_world_size', 'get_rank', 'isinstance', 'callable', 'broadcast_gradients', 'broadcast_inverses'}
+
+
+def _frozen_pure(e: ast.expr, mutable: set[str], in_init: bool) -> bool:
+    """An expression whose value cannot change while the method runs: constants, write-once fields reached from self,
+    tests and conditional expressions over those, and calls of the package's pure predicates / size queries on them."""
+    if '*' in mutable or in_init:
+        return False
+    if isinstance(e, ast.Constant):
+        return True
+    if isinstance(e, ast.Attribute):
+        chain = []
+        r = e
+        while isinstance(r, ast.Attribute):
+            chain.append(r.attr)
+            r = r.value
+        return isinstance(r, ast.Name) and r.id == 'self' and not any(a in mutable for a in chain)
+    if isinstance(e, ast.Compare):
+        return _frozen_pure(e.left, mutable, in_init) and all(_frozen_pure(c, mutable, in_init) for c in e.comparators)
+    if isinstance(e, ast.BoolOp):
+        return all(_frozen_pure(v, mutable, in_init) for v in e.values)
+    if isinstance(e, ast.UnaryOp):
+        return _frozen_pure(e.operand, mutable, in_init)
+    if isinstance(e, ast.IfExp):
+        return all(_frozen_pure(x, mutable, in_init) for x in (e.test, e.body, e.orelse))
+    if isinstance(e, ast.Call) and not e.keywords:
+        f = e.func
+        nm = f.attr if isinstance(f, ast.Attribute) else (f.id if isinstance(f, ast.Name) else None)
+        if nm not in PURE_PREDICATES:
+            return False
+        if isinstance(f, ast.Attribute) and not _frozen_pure(f.value, mutable, in_init):
+            return False
+        return all(_frozen_pure(a, mutable, in_init) for a in e.args)
+    return False
+
+
 def _copy_prop(block: list[ast.stmt], mutable: set[str], in_init: bool, keep: set[str] | None = None) -> None:
     """N5 on one block (in place)."""
     i = 0
     while i < len(block):
         st = block[i]
+        # a new local that names a value which cannot change during the call (a hoisted test, a hoisted size query)
+        if isinstance(st, ast.Assign) and len(st.targets) == 1 and isinstance(st.targets[0], ast.Name) and st.targets[0].id not in (keep or ()) \
+                and not isinstance(st.value, (ast.Constant, ast.Attribute)) and _frozen_pure(st.value, mutable, in_init):
+            v = st.targets[0].id
+            j = i + 1
+            while j < len(block) and v not in _stores(block[j]):
+                j += 1
+            if j == len(block) or True:
+                seg = block[i + 1:j]
+                if seg:
+                    sub = _Sub({v: st.value})
+                    block[i + 1:j] = [sub.visit(s) for s in seg]
+            i += 1
+            continue
         fld = _self_field(st.value) if isinstance(st, ast.Assign) and len(st.targets) == 1 and isinstance(st.targets[0], ast.Name) else None
         if fld is not None and st.targets[0].id in (keep or ()):
             fld = None
@@ -1269,14 +1319,15 @@ def _drop_dead_copies(fn: ast.AST, keep: set[str] | None = None) -> None:
             d = loads if isinstance(n.ctx, ast.Load) else stores
             d[n.id] = d.get(n.id, 0) + 1
     for _owner, blk in list(_blocks(fn)):
-        keep = []
+        kept = []
         for st in blk:
-            if isinstance(st, ast.Assign) and len(st.targets) == 1 and isinstance(st.targets[0], ast.Name) and _self_field(st.value) is not None \
+            if isinstance(st, ast.Assign) and len(st.targets) == 1 and isinstance(st.targets[0], ast.Name) \
+                    and (_self_field(st.value) is not None or _frozen_pure(st.value, _MUTABLE, getattr(fn, 'name', '') == '__init__')) \
                     and not loads.get(st.targets[0].id) and stores.get(st.targets[0].id) == 1 and st.targets[0].id not in (keep or ()):
                 continue
-            keep.append(st)
-        if len(keep) != len(blk):
-            blk[:] = keep or [ast.copy_location(ast.Pass(), blk[0])]
+            kept.append(st)
+        if len(kept) != len(blk):
+            blk[:] = kept or [ast.copy_location(ast.Pass(), blk[0])]
 
 
 def _blocks(node: ast.AST):  # noqa: ANN202
